@@ -51,9 +51,11 @@ def fixed_query(prop, n, avail_out, valid_only, core=False, witness=False, timeo
     return Query("%s/n%d_ao%d" % (fam, n, avail_out), R, p, core=core, family=fam, weight=10 * 4 ** n)
 
 
-def setcodes_query(nsym, core=False, witness=False):
+def setcodes_query(nsym, core=False, witness=False, timeout=None):
     p = dict(harness="harness/C02/h_setcodes.c", units=["igzip/hufftables_c.c"], defines=FAST, hdefines=["NSYM=%d" % nsym],
              unwind=max(17, nsym + 2), witness=witness)
+    if timeout:
+        p["timeout"] = timeout
     return Query("set_codes/nsym%d" % nsym, R, p, core=core, family="set_codes", weight=nsym)
 
 
@@ -66,3 +68,56 @@ def dynprefix_query(core=True):
                                   "set_codes.0:17", "set_codes.1:20"],
              witness=True)
     return Query("dyn_header_prefix/n3", R, p, core=core, family="dyn_header_prefix", weight=3)
+
+
+# ---------------------------------------------------------------- plan descriptions shared by C02 / C06
+FUNCS = ["isal_inflate_stateless (driver loop + final read-ahead undo, crc_flag = ISAL_DEFLATE)", "read_header",
+         "decode_literal_block", "inflate_in_load", "inflate_in_read_bits(_unsafe)",
+         "decode_huffman_code_block_stateless_base", "decode_next_lit_len", "decode_next_dist", "byte_copy",
+         "static_lit_huff_code / static_dist_huff_code (igzip/static_inflate.h)", "rfc_lookup_table",
+         "set_codes", "bit_reverse2", "setup_dynamic_header (prefix up to the code-length-code lengths)",
+         "make_inflate_huff_code_dist + decode_next_dist (C06 only, concrete code-length shapes)"]
+STUBS = ["stored family: bodies of setup_static_header/setup_dynamic_header removed and the Huffman block decoder replaced by an "
+         "assert-unreachable glue (both unreachable under the stated assumption)",
+         "dynamic-header prefix: bodies of make_inflate_huff_code_*, set_and_expand_lit_len_huffcode, decode_next_header removed "
+         "(unreachable with 3 input bytes: CBMC reports a call to a body-less function as a failure)",
+         "fixed-Huffman family: memcpy is a plain byte loop (CBMC's built-in model costs 10x the formula); --slice-formula",
+         "externals of igzip_inflate.c never reached by the units (crc32_gzip_refl, isal_adler32_bam1, *_header_init) assert-unreachable",
+         "include guards _X86INTRIN_H_INCLUDED/_IMMINTRIN_H_INCLUDED predefined (build speed only)"]
+ASSUMPTIONS = ["stored family: decoding never arrives at a block header with BTYPE 01/10 (harness-side walk over the stored-block structure)",
+               "fixed-Huffman family: decoder entered as isal_inflate_stateless enters it after setup_static_header "
+               "(block_state CODED, tables = static_inflate.h by struct assignment, empty bit buffer, start_out = next_out); "
+               "for n >= 3 inputs that try to reach more than 256 bytes before the start of output are excluded (CBMC cannot "
+               "evaluate `next_out - dist < start_out` outside the 256-byte arena prefix; a 32 KiB arena is > 17 GB)",
+               "truncated fixed-Huffman input whose present bits only continue to undefined symbols (1100011x, 1111x): both "
+               "END_INPUT and INVALID_SYMBOL accepted (ambiguous fault)",
+               "set_codes: count[] is the histogram of the length fields, as setup_dynamic_header builds it",
+               "spec/rfc1951.h is the reference semantics (self-tested against zlib at setup)"]
+OUTSIDE = ["whole isal_inflate_stateless / isal_inflate on Huffman-coded data (20 KB tables memcpy'd per block: no verdict at 2 bytes)",
+           "dynamic blocks beyond the HLIT/HDIST/HCLEN prefix: code-length decoding loop, repeat codes, make_inflate_huff_code_lit_len/"
+           "_dist/_header, set_and_expand_lit_len_huffcode (multi-symbol and long-code paths, code lengths up to 15) - measured out of reach",
+           "Huffman data longer than 2 bytes quick / 3-4 bytes thorough; distances > 256 before start of output for n >= 3",
+           "assembly decoders igzip_decode_block_stateless_01/_04; gzip/zlib wrappers and trailers (C11/C19)",
+           "set_codes on more than 4 symbols quick / 8 (12, 19 attempted) thorough"]
+
+
+def bounds(valid_only):
+    return {"stored": "input length 5..12 quick / 0..12 thorough, avail_out 0..8, all bytes symbolic",
+            "fixed_huffman": "input 1-2 bytes quick, 1-3 (4 attempted) thorough; avail_out in {0,3} quick, {0,1,2,3,16} thorough; bfinal symbolic",
+            "set_codes": "alphabets of 2..4 symbols quick, 1..8,12,19 thorough; all length vectors over 0..15",
+            "dyn_header_prefix": "3 arbitrary bytes with BTYPE=10",
+            "mkdist (C06)": "15 concrete distance code-length vectors (empty, single code, complete, incomplete, long codes > 10 bits, "
+                            "static 30x5); previous contents of the lookup structure (1104 x 16 bit) and the 15 looked-up bits symbolic",
+            "flavour": "valid streams only" if valid_only else "arbitrary bytes"}
+
+
+MKDIST_SHAPES = ["0", "1", "1,1", "1,2", "2,2,2", "2,2,2,2", "3,3,3,3,3", "10", "15", "12,12,12", "1,2,3,4,5,6,7,8,9,10",
+                 "1,2,3,4,5,6,7,8,9,10,11,12,13,14,15", "1,2,3,4,5,6,7,8,9,10,11,12,13,14,15,15",
+                 ",".join(["5"] * 30), "0,0,0,4,0,0,7,0,0,0,0,0,11,0,0,0,0,0,0,0,0,0,0,0,0,0,0,0,0,3"]
+
+
+def mkdist_query(i, lens, core=False, witness=False):
+    """C06/C15: make_inflate_huff_code_dist + decode_next_dist on a concrete length vector, arbitrary stale table contents."""
+    p = dict(harness="harness/C06/h_mkdist.c", units=["igzip/hufftables_c.c"], defines=FAST, hdefines=["LENS=%s" % lens],
+             unwind=33, unwindset=["harness.2:1026", "harness.3:1026", "harness.4:100", "rfc_decode.0:17"], witness=witness)
+    return Query("mkdist/shape%02d" % i, R, p, core=core, family="mkdist", weight=2)
